@@ -20,7 +20,10 @@ EXTRA = ("The checker also runs its cases in an interpreter started with -O, wit
          "subclasses, with plain-integer addresses, with a second sequence of the same kind alive on another bus at every switch point, "
          "with strings / tuples built at run time instead of literals, with streams of several hundred bytes, with counters and "
          "sequence numbers at their wrap-around, with other masters' traffic on the bus, with device nodes that re-enumerate under "
-         "another name, and with user-declared memory values and enums. ")
+         "another name, and with user-declared memory values and enums. It further re-runs its cases with logging enabled down to TRACE, "
+         "reads every public attribute of result objects, re-uses one frame / bank / map object across many operations (including declaring "
+         "further values between reads), derives vendor subclasses from the library's value classes, makes the gateway vanish at every "
+         "individual write, and feeds frames that answer nobody ahead of a reply. ")
 for n in range(1, 21):
     pid = f"C{n:02d}"
     src = open(os.path.join(prevdir, f"agent{prev}-{pid}.txt")).read()
